@@ -121,7 +121,14 @@ def schemaToTy (spec : Spec) : Nat → Schema → X Ty
     | .num => .ok .float
     | .int => .ok (intTy s.data.ext)
     | .bool => .ok .boolean
-    | .obj _ _ _ => .ok .any
+    | .obj props _ addl =>
+      -- an object with only `additionalProperties` is a map, wherever it occurs
+      if props.isEmpty then
+        match addl with
+        | .absent => .ok .any
+        | .any _ => .ok (.hashMap .any)
+        | .schema r => match schemaRefToTy spec fuel r with | .error e => .error e | .ok t => .ok (.hashMap t)
+      else .ok .any
     | .arr (.some it) =>
       match schemaRefToTy spec fuel it with
       | .error e => .error e
@@ -359,10 +366,9 @@ def makeName (opId : Option Text) (method path : Text) : X Text :=
         let param := (s.drop 1).take (s.length - 2)
         match names.getLast? with
         | some n =>
-          if startsWith n param then
-            -- `&param[name.len() + 1..]`
-            if n.length + 1 > param.length then .error .sliceOutOfRange
-            else .ok (cs!"_by_" ++ param.drop (n.length + 1))
+          if startsWith n param && param.length > n.length then
+            -- `&param[name.len() + 1..]` (in range: param is longer than the segment)
+            .ok (cs!"_by_" ++ param.drop (n.length + 1))
           else .ok (cs!"_by_" ++ param)
         | none => .ok (cs!"_by_" ++ param)
     match lastGroup with
@@ -401,7 +407,7 @@ def extractParam (spec : Spec) (pr : ParamRef) : X Param :=
     | some r =>
       match tyOfRef spec r with
       | .error e => .error e
-      | .ok ty => .ok { name := p.name, ty := ty, loc := p.loc, optional := !p.required }
+      | .ok ty => .ok { name := p.name, ty := ty, loc := p.loc, optional := !(p.required || p.loc == .path) }
 
 def extractParams (spec : Spec) : List ParamRef → X (List Param)
   | [] => .ok []
@@ -437,14 +443,37 @@ def propertiesIterList (spec : Spec) : Nat → List SRef → X (List (Text × SR
       | _, .error e => .error e
 end
 
+mutual
+/-- `declaring_schema`: for an `allOf` body, the member that declares `name` -/
+def declaringSchema (spec : Spec) (name : Text) : Nat → Schema → X Schema
+  | 0, _ => .error .diverged
+  | fuel + 1, s =>
+    match s.kind with
+    | .allOf members => declaringIn spec name fuel s members.toList
+    | _ => .ok s
+def declaringIn (spec : Spec) (name : Text) : Nat → Schema → List SRef → X Schema
+  | 0, _, _ => .error .diverged
+  | _ + 1, whole, [] => .ok whole
+  | fuel + 1, whole, m :: rest =>
+    match resolve spec m with
+    | .error e => .error e
+    | .ok ms =>
+      match propertiesIter spec fuel ms with
+      | .error e => .error e
+      | .ok props =>
+        if props.any (fun e => e.1 == name) then declaringSchema spec name fuel ms
+        else declaringIn spec name fuel whole rest
+end
+
 def bodyArgs (spec : Spec) (body : Schema) : List (Text × SRef) → List Param → X (List Param)
   | [], inputs => .ok inputs
   | (n, r) :: rest, inputs =>
-    match tyOfRef spec r, resolve spec r with
-    | .ok ty, .ok ps =>
-      bodyArgs spec body rest (addIfNew inputs { name := n, ty := ty, loc := .body, optional := isOptional n ps body })
-    | .error e, _ => .error e
-    | _, .error e => .error e
+    match tyOfRef spec r, resolve spec r, declaringSchema spec n FUEL body with
+    | .ok ty, .ok ps, .ok decl =>
+      bodyArgs spec body rest (addIfNew inputs { name := n, ty := ty, loc := .body, optional := isOptional n ps decl })
+    | .error e, _, _ => .error e
+    | _, .error e, _ => .error e
+    | _, _, .error e => .error e
 
 def resolveBody (spec : Spec) : OaBody → X (Option SRef)
   | .item j => .ok j
@@ -506,7 +535,7 @@ def getRes (spec : Spec) (op : OaOperation) : X (Option SRef) :=
 
 def insertSortedP (p : Param) : List Param → List Param
   | [] => [p]
-  | q :: rest => if ltT p.name q.name then p :: q :: rest else q :: insertSortedP p rest
+  | q :: rest => if ltT q.name p.name then q :: insertSortedP p rest else p :: q :: rest
 
 /-- stable sort by raw name, byte order (`sort_by(|a, b| a.name.cmp(&b.name))`) -/
 def sortParams (ps : List Param) : List Param := ps.foldr insertSortedP []
